@@ -258,7 +258,7 @@ fn explore_states(run: &mut Run, oracle: Oracle) {
                         kb.set_ctrl_handling(*m);
                         ed.set_ctrl_handling(*m);
                     }
-                    FlatEv::ChangeLayout(i) => ed.change_layout(EncLayout { id: *i & 3 }),
+                    FlatEv::ChangeLayout(i) => { let _ = ed.change_layout(EncLayout { id: *i & 3 }); }
                 }
             }
             format!("{:?}|{:?}", kb, ed)
